@@ -128,7 +128,7 @@ func outsideChanges(before, after map[string]string, allowed string) []string {
 func corrPaths(seed uint64, n int, tier string, out string, replay string) {
 	m := StartModel()
 	defer m.Close()
-	rep := NewReport("C16", "paths", seed, "case = (a) arbitrary strings through path.Clean vs the Lean pathClean; (b) tar entry names built from adversarial atoms (.., ., empty, drive prefixes, backslashes, absolute, Chart.yaml) through loader.LoadArchiveFiles vs the Lean name normaliser; (c) the same archives and symlink/hardlink entries through chartutil.Expand and the plugin TarGzExtractor into a sandbox with pre-planted symlinks, with a before/after snapshot of everything outside the destination; (d) size sequences around the per-file and total limits (limits lowered through the exported variables, the model told the same numbers); (e) Manager.Update on a chart with a symlink planted at Chart.lock / requirements.lock; non-trivial = name has a '..', '.', empty, absolute, drive or backslash component; distinct = hash of the case")
+	rep := NewReport("C16", "paths", seed, "case = (a) arbitrary strings through path.Clean vs the Lean pathClean; (b) tar entry names built from adversarial atoms (.., ., empty, drive prefixes, backslashes, absolute, Chart.yaml) through loader.LoadArchiveFiles vs the Lean name normaliser; (c) the same archives and symlink/hardlink entries through chartutil.Expand and the plugin TarGzExtractor into a sandbox with pre-planted symlinks, with a before/after snapshot of everything outside the destination; (d) size sequences around the per-file and total limits (limits lowered through the exported variables, the model told the same numbers); (e) Manager.Update on a chart with a symlink planted at Chart.lock / requirements.lock in four shapes (relative target with .., absolute target, local-looking target through a directory link that leaves the chart, target inside the chart); non-trivial = name has a '..', '.', empty, absolute, drive or backslash component; distinct = hash of the case")
 	tmp, _ := os.MkdirTemp("", "corr-paths")
 	defer os.RemoveAll(tmp)
 	for i := 0; i < n; i++ {
@@ -160,8 +160,8 @@ func corrPaths(seed uint64, n int, tier string, out string, replay string) {
 	for i := 0; i < n/10+3; i++ {
 		sizesCase(m, rep, NewRng(seed^0x51, uint64(i)), seed, i)
 	}
-	for i := 0; i < 4; i++ {
-		lockCase(rep, tmp, i%2 == 1, seed, i)
+	for i := 0; i < 8; i++ {
+		lockCase(rep, tmp, i%2 == 1, i/2, seed, i)
 	}
 	rep.Write(out, m)
 }
@@ -347,7 +347,7 @@ func (c *countingReader) Read(p []byte) (int, error) {
 }
 
 // lockCase: Manager.Update must not write through a symlink planted at the lock file's path.
-func lockCase(rep *Report, tmp string, legacy bool, seed uint64, idx int) {
+func lockCase(rep *Report, tmp string, legacy bool, shape int, seed uint64, idx int) {
 	root := filepath.Join(tmp, fmt.Sprintf("lock-%d", idx))
 	chartDir := filepath.Join(root, "parent")
 	os.MkdirAll(filepath.Join(root, "dep"), 0o755)
@@ -365,7 +365,23 @@ func lockCase(rep *Report, tmp string, legacy bool, seed uint64, idx int) {
 	} else {
 		os.WriteFile(filepath.Join(chartDir, "Chart.yaml"), []byte("apiVersion: v2\nname: parent\nversion: 0.1.0\ndependencies:\n- name: dep\n  version: 0.1.0\n  repository: file://../dep\n"), 0o644)
 	}
-	os.Symlink("../outside/victim", filepath.Join(chartDir, lockName))
+	shapeName := "relative-dotdot"
+	switch shape {
+	case 0: // relative target leaving the chart
+		os.Symlink("../outside/victim", filepath.Join(chartDir, lockName))
+	case 1: // absolute target
+		shapeName = "absolute"
+		os.Symlink(victim, filepath.Join(chartDir, lockName))
+	case 2: // a local-looking target whose directory component is itself a link out of the chart
+		shapeName = "local-through-dir-link"
+		os.Symlink("../outside", filepath.Join(chartDir, "locks"))
+		os.Symlink("locks/victim", filepath.Join(chartDir, lockName))
+	default: // a link that stays inside the chart: still "through a symlink planted at the lock file's path"
+		shapeName = "in-chart"
+		victim = filepath.Join(chartDir, "other.lock")
+		os.WriteFile(victim, []byte(precious), 0o644)
+		os.Symlink("other.lock", filepath.Join(chartDir, lockName))
+	}
 	repoCfg := filepath.Join(root, "repositories.yaml")
 	os.WriteFile(repoCfg, []byte("apiVersion: v1\nrepositories: []\n"), 0o644)
 	before := snapshot(root)
@@ -375,14 +391,14 @@ func lockCase(rep *Report, tmp string, legacy bool, seed uint64, idx int) {
 		rep.Issue(Issue{Kind: "monitor", Fingerprint: "C20:panic:Manager.Update", What: p, Seed: seed, Index: idx})
 	}
 	after := snapshot(root)
-	rep.Count(map[string]any{"lock": lockName}, true)
-	rep.H("lock:" + lockName + ":" + map[bool]string{true: "error", false: "ok"}[err != nil])
+	rep.Count(map[string]any{"lock": lockName, "shape": shapeName}, true)
+	rep.H("lock:" + lockName + ":" + shapeName + ":" + map[bool]string{true: "error", false: "ok"}[err != nil])
 	if err != nil && os.Getenv("VERIF_DEBUG") != "" {
 		fmt.Fprintln(os.Stderr, "lockCase:", err)
 	}
 	b, _ := os.ReadFile(victim)
 	if string(b) != precious {
-		rep.Issue(Issue{Kind: "monitor", Fingerprint: "C16:lock-symlink", What: "Manager.Update wrote the lock file through a symlink planted at " + lockName + ": a file outside the chart directory was overwritten", Case: map[string]any{"lock": lockName, "changes": outsideChanges(before, after, "parent")}, Seed: seed, Index: idx})
+		rep.Issue(Issue{Kind: "monitor", Fingerprint: "C16:lock-symlink", What: "Manager.Update wrote the lock file through a symlink planted at " + lockName + " (" + shapeName + "): the file the link leads to was overwritten", Case: map[string]any{"lock": lockName, "shape": shapeName, "changes": outsideChanges(before, after, "parent")}, Seed: seed, Index: idx})
 	}
 	os.RemoveAll(root)
 }
